@@ -1147,4 +1147,45 @@ theorem find_values_str_keys (ks : List String) (hs : ks.Pairwise fun a b => ¬ 
 
 example : IsTopOf 2 exItems [(.int 2, .int 30), (.int 4, .int 30)] := top_spec_goHeap exItems 2 _ (by decide)
 
+/-! ## collection features replaced inside a mutable world -/
+
+/-- what `Sort()` (or an ordered source) guarantees of a feature handed to `AddFeature`: if its flag is set, its
+keys are ordered for every probe -/
+def FlagOk (f : CF) : Prop := f.sorted = true → ∀ key, SearchOk f.keys key
+
+theorem worldAdd_eq (stored : Option CF) (f : CF) : worldAdd stored f = some f := by
+  cases stored <;> rfl
+
+/-- after any history of replacements the world holds the last feature added — keys, values AND flag -/
+theorem world_history_last (hist : List CF) (f : CF) (st0 : Option CF) :
+    (hist ++ [f]).foldl worldAdd st0 = some f := by
+  rw [List.foldl_append]; simp [worldAdd_eq]
+
+/-- **Lookups after any replace history equal the linear scan**: start from any stored feature (or none), add
+features with the same ID any number of times (each either unsorted or `Sort()`ed), then look up any key. -/
+theorem world_lookup_after_history (hist : List CF) (st0 : Option CF)
+    (h0 : ∀ e, st0 = some e → FlagOk e) (hh : ∀ f ∈ hist, FlagOk f)
+    (e : CF) (he : hist.foldl worldAdd st0 = some e) (key : Val) :
+    e.findValue key = scanFirst e.keys e.vals key ∧
+    (e.keys.size ≤ e.vals.size → e.findValues key = scanAll e.keys e.vals key) := by
+  have hok : FlagOk e := by
+    induction hist generalizing st0 with
+    | nil => exact h0 e he
+    | cons f fs ih =>
+      simp only [List.foldl_cons, worldAdd_eq] at he
+      apply ih (some f)
+      · intro e' h'; cases h'; exact hh f (List.mem_cons_self ..)
+      · intro g hg; exact hh g (List.mem_cons_of_mem _ hg)
+      · exact he
+  unfold CF.findValue CF.findValues
+  cases hs : e.sorted with
+  | false => exact ⟨rfl, fun _ => rfl⟩
+  | true => exact ⟨find_value_spec _ _ _ (hok hs key), fun hv => find_values_spec _ _ _ (hok hs key) hv⟩
+
+/-- what goes wrong when a replacement keeps the old flag (the class of seeded change C24-4): a sorted feature
+replaced by one with unordered keys, flag still set — the binary search misses a key the scan finds -/
+theorem stale_sorted_flag_counterexample :
+    let e : CF := { keys := #[.int 3, .int 1, .int 2], vals := #[.str "c", .str "a", .str "b"], sorted := true }
+    e.findValue (.int 1) = none ∧ scanFirst e.keys e.vals (.int 1) = some (.str "a") := by decide
+
 end B6.Props.C24
